@@ -10,6 +10,7 @@ import StepModel.ComplexOrFreeTop
 import StepModel.ComplexTerm2
 import StepModel.ComplexSatO5
 import StepModel.ComplexFuel
+import StepModel.ComplexBuildWF
 /-!
 # C08 — complex instances are accepted exactly when the supertype constraints allow them
 
@@ -320,6 +321,25 @@ theorem C08_accept_one_list_partial (c : Collect) (parts : List Name) (hc : ∀ 
 /-- the hypotheses are satisfiable, on a list with an OrList: `a SUPERTYPE OF (ONEOF(b, c) ANDOR d)`, `#n=(D()A()B())` -/
 example : ∃ h ∈ exOneofAndorTree, ∃ Y ∈ denote h, ∀ y ∈ Y, y ∈ [3, 0, 1] :=
   C08_accept_contains_derivation exOneofAndorTree [] [3, 0, 1] (by decide) C08_oneof_legal_accepted.1
+
+/-- **Every list exp2cxx's construction emits has the shape the matcher theorems assume.**  For every schema whose
+ONEOFs have at least one operand (`exprsOK` — the EXPRESS grammar) and every fuel, each list of `collectOf s fuel` is
+`headWF`: head = `AND(supertype, one sub-list)`, and no AND/ANDOR/OR list below is empty — through `processSubExp`
+(flattening included), `addImplicitSubs` and `addSimpleAndSubs` (copies, `OR(simple, list)` wrappers).  This discharges
+the hypothesis `headWF` of `C08_no_crash`, `C08_accept_contains_derivation`, `C08_supports_answers_partial` for emitted
+collects (the check still verifies it on every tree the real exp2cxx writes). -/
+theorem C08_collectOf_headWF (s : Schema) (hs : s.exprsOK) (fuel : Nat) (c : Collect) (h : collectOf s fuel = some c) :
+    ∀ hd ∈ c, headWF hd = true :=
+  collectOf_headWF s hs fuel c h
+
+/-- … hence: no crash and "accept ⇒ some list derives a subset of the request" on every emitted collect -/
+theorem C08_emitted_safe_and_sound_half (s : Schema) (hs : s.exprsOK) (fuel : Nat) (c : Collect)
+    (h : collectOf s fuel = some c) (mult parts : List Name)
+    (hcov : ∀ n ∈ parts, n ∈ mult → ∃ h ∈ c, n ∈ leaves h) :
+    (∀ k, supports c mult parts ≠ .crash k) ∧
+    (supports c mult parts = .ok true → ∃ h ∈ c, ∃ Y ∈ denote h, ∀ y ∈ Y, y ∈ parts) :=
+  ⟨C08_no_crash c mult parts (C08_collectOf_headWF s hs fuel c h) hcov,
+   C08_accept_contains_derivation c mult parts (C08_collectOf_headWF s hs fuel c h)⟩
 
 /-- Soundness fails on the current code: `{a, b, d}` lacks `d`'s supertype `c`, yet the matcher accepts it
 (finding `several-supertypes:accepts-illegal`). -/
